@@ -67,9 +67,12 @@ func Harness_C07_step() {
 		for i := 0; i < n; i++ {
 			m := &jmessage{batch: n > 1}
 			id := ""
-			if nondetBool("hasid") {
+			switch nondetChoice("idform", 3) {
+			case 1:
 				id = verifValidID("member-id")
 				m.ID = json.RawMessage(id)
+			case 2:
+				m.ID = json.RawMessage("null") // spelled-out null id: counts as absent
 			}
 			switch nondetChoice("method", 5) {
 			case 0:
